@@ -7,6 +7,8 @@ import re
 from verifkit import Infra, read_ndjson, write_ndjson
 
 F6_SIGNATURE = "cost-drift:promote-of-removed-object"
+# wash leaves a priced object with a priority that is not the one for the head it works on (refresh rule of the pinned code)
+STALE_PRIO_SIGNATURE = "order:stale-priority-after-head-change"
 
 
 def report_once(ctx, sig, what, save):
@@ -31,6 +33,7 @@ def grab(out, tag):
 
 def beh_file(path, universe, behs):
     json.dump({"limit": universe["limit"], "lpa": universe["lpa"], "lifetime": universe["lifetime"],
+               "variant": universe.get("variant", "base"),
                "txs": universe["txs"], "heads": universe["heads"], "behs": behs}, open(path, "w"))
 
 
@@ -112,8 +115,8 @@ def replay_f6(ctx, uni, behs):
 
 # ------------------------------------------------------------------------------------------- model -> implementation
 
-def export_and_replay(ctx, num, depth=31, label="export"):
-    r = ctx.tlc("net", "MCPool", cfg="MCPool_export.cfg", workers=1, timeout=900, simulate="num=%d" % num, depth=depth,
+def export_and_replay(ctx, num, depth=31, label="export", cfg="MCPool_export.cfg"):
+    r = ctx.tlc("net", "MCPool", cfg=cfg, workers=1, timeout=900, simulate="num=%d" % num, depth=depth,
                 count=False, label="behaviour export (simulation)")
     if r.timeout or r.invariant or (r.error and "BEH" not in r.out):
         raise Infra("behaviour export failed: %s\n%s" % (r.invariant or r.error, r.out[-1500:]))
@@ -150,6 +153,8 @@ def export_and_replay(ctx, num, depth=31, label="export"):
         if mm is not None:
             stale = mm.get("stalePromote") or (mm["action"] == "WashPromote" and "real ok, model miss" in mm["detail"])
             sig = F6_SIGNATURE if stale else "replay-mismatch:%s:%s" % (mm["action"], mm["kind"])
+            if not stale and run.get("stalePrios", 0) > 0 and mm["action"] in ("WashLimit", "WashPublish", "WashKeep", "WashPromote"):
+                sig = STALE_PRIO_SIGNATURE      # the lists differ because the real pool sorted by an outdated priority
             what = "behaviour of TxPool.tla replayed on the real pool diverges at step %d (%s): %s" % (mm["step"], mm["action"], mm["detail"])
             idx = mm["step"]
         else:
@@ -193,6 +198,8 @@ def split_runs(events):
 def signature(ev, invariant, run_events, off):
     if ev.get("stale") or any(e.get("stale") for e in run_events[:off + 1]):
         return F6_SIGNATURE
+    if ev.get("staleprio") or any(e.get("staleprio") for e in run_events[:off + 1]):
+        return STALE_PRIO_SIGNATURE
     if invariant:
         return "invariant:" + invariant
     return "rejected:" + str(ev.get("e"))
@@ -271,6 +278,8 @@ def record_and_validate(ctx, runs, scen, sched, label, seed_offset=0):
         for v in (s.get("violations") or [])[:1]:
             drift = v["kind"] in ("cost-drift", "entries-left", "quota-drift")
             sig = F6_SIGNATURE if (drift and s.get("stalePromotes", 0) > 0) else "oracle:" + v["kind"]
+            if v["kind"].startswith("order") and s.get("stalePrios", 0) > 0:
+                sig = STALE_PRIO_SIGNATURE
             report_once(ctx, sig, "%s: scenario=%s mode=%s seed=%s: %s" % (label, s["scen"], s["mode"], s["seed"], v["detail"]),
                         lambda i=i, s=s, v=v: ctx.save_replay(
                             "%s-oracle-run%d-seed%s.json" % (label, i, s["seed"]),
